@@ -24,7 +24,9 @@ fn main() {
         return;
     }
     let thorough = a.tier == "thorough";
-    let n: usize = std::env::var("SV_HISTORIES").ok().and_then(|x| x.parse().ok()).unwrap_or(if thorough { 600 } else { 150 });
+    let n: usize = std::env::var("SV_HISTORIES").ok().and_then(|x| x.parse().ok())
+        .or_else(|| std::env::var(if thorough { "SV_HISTORIES_THOROUGH" } else { "SV_HISTORIES_QUICK" }).ok().and_then(|x| x.parse().ok()))
+        .unwrap_or(if thorough { 600 } else { 150 });
     let mut rng = Rng::new(a.seed ^ (a.prop.bytes().fold(0u64, |x, b| x * 131 + b as u64)));
     for _ in 0..n {
         let mut r = rng.fork();
